@@ -196,6 +196,7 @@ def run(ctx):
 
 
 def replay(ctx, rp):
+    common.import_eups()
     case = rp["input"]
     steps = _run_one(case)
     ms = lib_db.model_steps(ctx.lean.ask(lib_db.model_request(case, m="c07")))
